@@ -81,6 +81,12 @@ func main() {
 		os.Exit(1)
 	}
 	writeIfChanged(filepath.Join(*out, "Gen_Writes_pcache.v"), src)
+	src, err = genFieldWrites(*repo, "pcache", "pcache", "provider_cache.go")
+	if err != nil {
+		fmt.Fprintln(os.Stderr, "astgen:", err)
+		os.Exit(1)
+	}
+	writeIfChanged(filepath.Join(*out, "Gen_Fields_pcache.v"), src)
 }
 
 func writeIfChanged(path, content string) {
@@ -1014,4 +1020,102 @@ func rootIdent(e ast.Expr) string {
 		return rootIdent(x.X)
 	}
 	return exprStr(e)
+}
+
+// ---------------------------------------------------------------------------
+// field writes through selector chains (x.f1...fn = v, op-assign, ++/--)
+
+func selectorChain(e ast.Expr) (root string, depth int, ok bool) {
+	for {
+		switch x := e.(type) {
+		case *ast.ParenExpr:
+			e = x.X
+		case *ast.StarExpr:
+			e = x.X
+		case *ast.IndexExpr:
+			e = x.X
+		case *ast.SelectorExpr:
+			depth++
+			e = x.X
+		case *ast.Ident:
+			return x.Name, depth, depth >= 1
+		default:
+			return "", 0, false
+		}
+	}
+}
+
+func genFieldWrites(repo, name, dir, file string) (string, error) {
+	fset := token.NewFileSet()
+	f, err := parser.ParseFile(fset, filepath.Join(repo, dir, file), nil, parser.SkipObjectResolution)
+	if err != nil {
+		return "", err
+	}
+	var b strings.Builder
+	b.WriteString("(* GENERATED by harness/cmd/astgen from /repo/" + dir + "/" + file + " -- do not edit *)\n")
+	b.WriteString("From Coq Require Import List String Bool.\nImport ListNotations.\nOpen Scope string_scope.\n\n")
+	b.WriteString("(* one record per assignment (=, op=, ++, --) whose left-hand side, after stripping\n   parentheses, stars and index expressions, is a selector chain x.f1...fn (n >= 1):\n   function, LHS text, leftmost identifier, number of selectors, whether that identifier is\n   bound in the same function by x := &T{..} / T{..} / new(T) / make(..), line *)\n")
+	b.WriteString("Record fsite := { f_func : string; f_lhs : string; f_root : string; f_depth : nat; f_root_fresh : bool; f_line : nat }.\n\n")
+	b.WriteString("Definition " + name + "_field_writes : list fsite :=\n  [")
+	first := true
+	for _, d := range f.Decls {
+		fd, ok := d.(*ast.FuncDecl)
+		if !ok || fd.Body == nil {
+			continue
+		}
+		fresh := map[string]bool{}
+		ast.Inspect(fd.Body, func(n ast.Node) bool {
+			as, ok := n.(*ast.AssignStmt)
+			if !ok || as.Tok != token.DEFINE {
+				return true
+			}
+			for i, l := range as.Lhs {
+				id, ok := l.(*ast.Ident)
+				if !ok || i >= len(as.Rhs) || len(as.Lhs) != len(as.Rhs) {
+					continue
+				}
+				switch r := as.Rhs[i].(type) {
+				case *ast.CompositeLit:
+					fresh[id.Name] = true
+				case *ast.UnaryExpr:
+					if _, ok := r.X.(*ast.CompositeLit); ok && r.Op == token.AND {
+						fresh[id.Name] = true
+					}
+				case *ast.CallExpr:
+					if fn, ok := r.Fun.(*ast.Ident); ok && (fn.Name == "new" || fn.Name == "make") {
+						fresh[id.Name] = true
+					}
+				}
+			}
+			return true
+		})
+		emit := func(lhs ast.Expr, pos token.Pos) {
+			root, depth, ok := selectorChain(lhs)
+			if !ok {
+				return
+			}
+			if !first {
+				b.WriteString(";\n   ")
+			}
+			first = false
+			b.WriteString(fmt.Sprintf("{| f_func := %s; f_lhs := %s; f_root := %s; f_depth := %d; f_root_fresh := %v; f_line := %d |}",
+				coqStr(fd.Name.Name), coqStr(exprStr(lhs)), coqStr(root), depth, fresh[root], fset.Position(pos).Line))
+		}
+		ast.Inspect(fd.Body, func(n ast.Node) bool {
+			switch x := n.(type) {
+			case *ast.AssignStmt:
+				if x.Tok == token.DEFINE {
+					return true
+				}
+				for _, l := range x.Lhs {
+					emit(l, x.Pos())
+				}
+			case *ast.IncDecStmt:
+				emit(x.X, x.Pos())
+			}
+			return true
+		})
+	}
+	b.WriteString("].\n")
+	return b.String(), nil
 }
